@@ -199,8 +199,8 @@ def Fetcher.start (v2 : Bool) : Except PyErr (Fetcher × Bytes) :=
 
 /-- decode `[nbr_of_items, crc]` from `payload[:6]` (`<HI`) / `payload[:5]` (`<BI`) -/
 def unpackInfo (v2 : Bool) (payload : Bytes) : Except PyErr (Nat × Nat) :=
-  let r := if v2 then unpack (parseFmt! Gen.C03.infoFmtV2) (payload.take 6)
-           else unpack (parseFmt! Gen.C03.infoFmtV1) (payload.take 5)
+  let r := if v2 then unpack (parseFmt! Gen.C03.infoFmtV2) (payload.take Gen.C03.infoTakeV2)
+           else unpack (parseFmt! Gen.C03.infoFmtV1) (payload.take Gen.C03.infoTakeV1)
   match r with
   | .ok [.int n, .int c] => .ok (n.toNat, c.toNat)
   | .ok _ => .error .valueError          -- `[a, b] = ...` with another arity
@@ -209,7 +209,7 @@ def unpackInfo (v2 : Bool) (payload : Bytes) : Except PyErr (Nat × Nat) :=
 /-- `ident`: `struct.unpack('<H', payload[:2])[0]` / `payload[0]` -/
 def unpackIdent (v2 : Bool) (payload : Bytes) : Except PyErr Nat :=
   if v2 then
-    match unpack (parseFmt! Gen.C03.identFmtV2) (payload.take 2) with
+    match unpack (parseFmt! Gen.C03.identFmtV2) (payload.take Gen.C03.identTakeV2) with
     | .ok (.int i :: _) => .ok i.toNat
     | .ok _ => .error .indexError
     | .error e => .error e
@@ -223,7 +223,7 @@ def unpackIdent (v2 : Bool) (payload : Bytes) : Except PyErr Nat :=
 def Fetcher.onPacket (dec : Nat → Bytes → Except PyErr Elem) (f : Fetcher) (chan : Nat) (data : Bytes) :
     Except PyErr Step :=
   if chan ≠ 0 then .ok ⟨f, [], false⟩ else
-  let payload := data.drop 1
+  let payload := data.drop Gen.C03.payloadDrop
   match f.st with
   | .done => .ok ⟨f, [], false⟩
   | .info =>
@@ -241,7 +241,7 @@ def Fetcher.onPacket (dec : Nat → Bytes → Except PyErr Elem) (f : Fetcher) (
     | .error e => .error e
     | .ok ident =>
       if ident ≠ f.req then .ok ⟨f, [], false⟩ else
-      match dec ident (payload.drop (if f.v2 then 2 else 1)) with
+      match dec ident (payload.drop (if f.v2 then Gen.C03.elemDropV2 else Gen.C03.elemDropV1)) with
       | .error e => .error e
       | .ok e =>
         let toc' := f.toc.add e
